@@ -217,8 +217,34 @@ def install() -> types.ModuleType:
     return m
 
 
+LAZY_NAME = "vt_lazy_unloaded"
+
+
+def is_unexecuted_module(obj: Any) -> bool:
+    """a module object whose code has not run yet (importlib.util.LazyLoader): reading ANY attribute of it imports it.
+    Decided from type() alone - no attribute of the object is touched."""
+    return isinstance(obj, types.ModuleType) and type(obj).__getattribute__ is not types.ModuleType.__getattribute__
+
+
+def arm_lazy() -> None:
+    """(re-)register the planted module the way `importlib.util.LazyLoader` users do: present in sys.modules and as an attribute of the
+    loaded trap module, its code not executed yet."""
+    import importlib.util
+
+    spec = importlib.util.spec_from_file_location(LAZY_NAME, os.path.join(IMPORTABLE_DIR, LAZY_NAME + ".py"))
+    loader = importlib.util.LazyLoader(spec.loader)  # type: ignore[union-attr,arg-type]
+    spec.loader = loader  # type: ignore[union-attr]
+    mod = importlib.util.module_from_spec(spec)  # type: ignore[arg-type]
+    loader.exec_module(mod)          # lazy: nothing runs here
+    sys.modules[LAZY_NAME] = mod
+    host = sys.modules.get(MOD)
+    if host is not None:
+        vars(host)["lazy_mod"] = mod
+
+
 def reset() -> None:
     CALLS.clear()
+    arm_lazy()
     for n in ("_vt_trap_imported", "_vt_trap_called"):
         if hasattr(builtins, n):
             delattr(builtins, n)
